@@ -2,3 +2,5 @@ import HermesModel.Calendar
 import HermesModel.Proto
 import HermesModel.Partition
 import HermesModel.Generated.Facts
+import HermesModel.Num
+import HermesModel.Water
